@@ -690,6 +690,18 @@ def r_bitfield_unit(P, rep):
     sub.rule('R08.3', '', 1)
     c08.layout_fn(P, pu, sub, 'struct_decl', False)
     n = 0
+    # the same summary also says what sizeof is: objects of the type are laid out sizeof apart (arrays, adjacent locals), so the final size must be
+    # the extent rounded up to the alignment, packed or not
+    from ..report import reissue
+    rep.rule('R04.16', 'object extent: the final size of a struct is its members\' extent rounded up to the struct\'s alignment (also for packed + aligned), and an object completed by a flexible-array initialiser is at least sizeof(struct) and covers the initialised elements (shared with C08 R08.3 final-size and C05 R05.9)', floor=3)
+    reissue(rep, 'R04.16', sub, 'neighbouring objects would overlap or be misaligned: ', keep=lambda o: ':final-size' in o['key'])
+    from . import c05
+    sub5 = Report('C05')
+    try:
+        c05.run(P, sub5, 'quick')
+        reissue(rep, 'R04.16', sub5, 'the object is smaller than the bytes its type designates: ', keep=lambda o: o['key'].startswith('R05.9:'))
+    except Exception as e:
+        rep.undecided('R04.16', 'parse.c:initializer:flexible-struct-size', 'C05 rules could not be run: %s' % e)
     for o in sub.obs:
         if o['key'].endswith('/unit-fit'):
             n += 1
